@@ -21,7 +21,7 @@ RULE = ("a case is a schema over all persistent families (containers of encoded 
         "modulo the two stated normalisations, and the default key file must stay untouched; out-of-domain (state, "
         "format) pairs are skipped and counted; non-trivial = state with >= 3 set values reloaded in >= 2 formats; "
         "distinct = distinct (schema, state)")
-REQUIRED = ("nested_encoded_containers", "roundtrips:json", "roundtrips:yaml", "roundtrips:bson", "roundtrips:xml", "roundtrips:pickle",
+REQUIRED = ("roundtrips_after_key_rotation", "schema_key_equals_root_tag", "nested_encoded_containers", "roundtrips:json", "roundtrips:yaml", "roundtrips:bson", "roundtrips:xml", "roundtrips:pickle",
             "tree_plainness_checks", "virtual_key_checks", "states_validated", "list_of_config_states",
             "encoded_item_containers")
 ASSUMPTIONS = ["equality is judged on the plain image of the configurations (values at every depth), not on object identity",
@@ -68,7 +68,8 @@ def generate(rng, ctx):
     dyn = {}
     if schema.get("dynamic") and rng.random() < 0.7:
         dyn = {"dyn_%d" % i: roundtrip.plain_value(rng, fmt) for i in range(rng.choice([1, 2]))}
-    return {"schema": schema, "fmt": fmt, "tree": tree, "ops": ops, "dyn": dyn}
+    return {"schema": schema, "fmt": fmt, "tree": tree, "ops": ops, "dyn": dyn,
+            "rotate": rng.randrange(1, 1 << 20) if rng.random() < 0.5 else 0}
 
 
 def probes(ctx):
@@ -126,6 +127,8 @@ def run(case, ctx, res):
         res.count("state_valid_for_library_but_not_for_model_skipped")
         return
     res.count("states_validated")
+    if any(isinstance(state.get(k), dict) and state.get(k) for k in ("config", "cfg", "k0")):
+        res.count("schema_key_equals_root_tag")
     if _has_list_of_cfg(root, state):
         res.count("list_of_config_states")
     if any(k in state and state[k] for k in ("enc_l", "enc_d")):
@@ -198,6 +201,30 @@ def run(case, ctx, res):
                     label, touched[0][0], drv.keyfile))
                 return
         done += 1
+    # ---- the key file is replaced by another program between two saves of the unchanged configuration: what is
+    # written afterwards must load back with the key file as it is now
+    if done and case.get("rotate"):
+        try:
+            with open(drv.keyfile, "wb") as fp:
+                fp.write(bytes((case["rotate"] * 31 + i * 17) % 256 for i in range(32)))
+        except OSError:
+            pass
+        else:
+            fmts = [f for f in trees.FORMATS if trees.in_domain(f, basic) and trees.in_domain(f, tree)]
+            fmt = fmts[case["rotate"] % len(fmts)]
+            fresh = cc.Config(drv.built.schema, key_filename=drv.keyfile)
+            try:
+                fresh.loads(cfg.dumps(fmt), fmt)
+            except Exception as exc:
+                res.viol("M-roundtrip", "raises-after-key-rotation:%s" % _errkind(exc), "%s: the key file was replaced between two saves of "
+                         "the unchanged state; saving and re-loading raised %s: %s" % (fmt, type(exc).__name__, str(exc)[:200]))
+                return
+            res.count("roundtrips_after_key_rotation")
+            diff = roundtrip.diff_states(root, state, plain(fresh))
+            if diff:
+                res.viol("M-roundtrip", "differs-after-key-rotation:%s" % fmt, "%s: the key file was replaced between two saves of the "
+                         "unchanged state; the re-loaded configuration differs: %s" % (fmt, "; ".join(diff[:3])))
+                return
     if done >= 2 and _count_set(state) >= 3:
         res.nontrivial(case["schema"], case["tree"], case["ops"], case["dyn"])
 
